@@ -153,6 +153,8 @@ namespace sqf
             template <class T, typename TValue>
             TValue get(size_t index, TValue def) const { return m_value.size() > index ? m_value.at(index).data_try<T, TValue>(def) : def; }
             size_t size() const { return m_value.size(); }
+            /// largest size an operator may give an array on request (resize, set): what Arma allows
+            static constexpr size_t max_size() { return 9999999; }
             bool empty() const { return m_value.empty(); }
 
             iterator begin() { return m_value.begin(); }
